@@ -61,6 +61,7 @@ func runStoresHistory() int {
 		root, err := os.MkdirTemp(*flagScratch, "hist")
 		must(err)
 		defer os.RemoveAll(root)
+		defer os.Remove(root + "-parent-link")
 		// the directory
 		for ref, cont := range in.Phys {
 			typ, name, _ := strings.Cut(ref, ":")
@@ -68,6 +69,18 @@ func runStoresHistory() int {
 				continue
 			}
 			d := filepath.Join(root, "truststore", "x509", histTypeDir[typ], name)
+			if cont == "linkRoot" {
+				// the named store is a symbolic link: onto a directory outside the trust-store tree, or onto a store nobody lists
+				target := filepath.Join(root, "elsewhere", typ+"-"+name)
+				if mix(*flagSeed, c.ID, "lnk"+ref)%2 == 1 {
+					target = filepath.Join(root, "truststore", "x509", histTypeDir[typ], "unlisted-"+name)
+				}
+				must(os.MkdirAll(target, 0755))
+				must(os.WriteFile(filepath.Join(target, "cert.pem"), pem.EncodeToMemory(&pem.Block{Type: "CERTIFICATE", Bytes: signerChain.Root().Raw}), 0644))
+				must(os.MkdirAll(filepath.Dir(d), 0755))
+				must(os.Symlink(target, d))
+				continue
+			}
 			must(os.MkdirAll(d, 0755))
 			if cont == "empty" {
 				continue // the store directory exists and holds nothing
@@ -108,7 +121,7 @@ func runStoresHistory() int {
 		ctx := context.Background()
 		refused := false
 		panicked, msg := guarded(func() {
-			vv, err := verifier.NewVerifierWithOptions(truststore.NewX509TrustStore(dir.NewSysFS(root)), verifier.VerifierOptions{OCITrustPolicy: doc,
+			vv, err := verifier.NewVerifierWithOptions(truststore.NewX509TrustStore(dir.NewSysFS(spell(root, root+"-parent-link", mix(*flagSeed, c.ID, "spell")))), verifier.VerifierOptions{OCITrustPolicy: doc,
 				RevocationCodeSigningValidator: ctxValidator{&mockRevocation{}}, RevocationTimestampingValidator: ctxValidator{&mockRevocation{}}})
 			if err != nil {
 				refused = true // the document is refused as a whole: nothing is verified under it
